@@ -38,7 +38,7 @@ const fanout = 64
 
 // Case is one replayable case.
 type Case struct {
-	Space  string `json:"space"`  // subset | size | seq
+	Space  string `json:"space"`  // subset | size | seq | ctx | reentrant
 	Kind   string `json:"kind"`   // name | num
 	Entry  string `json:"entry"`  // Write | WriteMap | Embed
 	Config string `json:"config"` // v14 | v17 | v20hr
@@ -52,6 +52,19 @@ type Case struct {
 	// seq: indices into the kind's 4-key sequence alphabet, passed to Write
 	// in this order
 	Seq []int `json:"seq,omitempty"`
+	// ctx: the key set of a size case, written in the writer context Ctx
+	// (c17ext.go: contextNames)
+	Ctx string `json:"ctx,omitempty"`
+	// reentrant: the key set of a size case written plainly; on ONE reader
+	// object (Reader = FromFile | InMemory) a first enumeration is started
+	// and advanced by At entries (At = 0: no such prefix), then the
+	// operations Ops are executed in order ("L:i" Lookup of probe i, "S"
+	// start another All, "N:j" take one entry from the j-th active
+	// enumeration, "X:j" abandon it), then every enumeration still active is
+	// drained, the newest first
+	Reader string   `json:"reader,omitempty"`
+	At     int      `json:"at,omitempty"`
+	Ops    []string `json:"ops,omitempty"`
 }
 
 type failure struct {
@@ -387,7 +400,7 @@ func (a *api[K]) build(c Case) (in *input[K], isMap bool, err error) {
 			return nil, false, fmt.Errorf("mask %#x exceeds the universe", c.Mask)
 		}
 		in.probes = a.universe
-	case "size":
+	case "size", "ctx", "reentrant":
 		if c.N < 0 || c.Parity < 0 || c.Parity > 1 {
 			return nil, false, errors.New("bad size case")
 		}
@@ -596,6 +609,7 @@ type walker[K cmp.Ordered] struct {
 	keys  []K
 	vals  []pdf.Object
 	role  map[K]string // position of a key within its leaf
+	ends  []int        // number of entries seen after each leaf, in traversal order
 	sh    shape
 	fails []failure
 }
@@ -719,6 +733,7 @@ func (wk *walker[K]) walk(ref pdf.Reference, isRoot bool, depth int) (lo, hi K, 
 			}
 		}
 		any = true
+		wk.ends = append(wk.ends, len(wk.keys))
 	} else {
 		arr, ok := wk.array(kidsObj)
 		if !ok {
@@ -788,6 +803,13 @@ func (wk *walker[K]) walk(ref pdf.Reference, isRoot bool, depth int) (lo, hi K, 
 
 // structure judges the nodes reachable from root against the model.
 func (a *api[K]) structure(g pdf.Getter, root pdf.Reference, in *input[K], wantRoles bool) (shape, map[K]string, []failure) {
+	sh, role, _, fails := a.structureEnds(g, root, in, wantRoles)
+	return sh, role, fails
+}
+
+// structureEnds is structure; it also returns the number of entries seen
+// after each leaf in traversal order (the leaf boundaries of the file).
+func (a *api[K]) structureEnds(g pdf.Getter, root pdf.Reference, in *input[K], wantRoles bool) (shape, map[K]string, []int, []failure) {
 	wk := &walker[K]{a: a, g: g, seen: map[pdf.Reference]bool{root: true}}
 	if wantRoles {
 		wk.role = make(map[K]string, len(in.keys))
@@ -809,7 +831,7 @@ func (a *api[K]) structure(g pdf.Getter, root pdf.Reference, in *input[K], wantR
 			}
 		}
 	}
-	return wk.sh, wk.role, wk.fails
+	return wk.sh, wk.role, wk.ends, wk.fails
 }
 
 // ---------------------------------------------------------------------------
@@ -955,28 +977,45 @@ func judge[K cmp.Ordered](a *api[K], c Case) verdict {
 	if werr != nil {
 		return verdict{fails: []failure{{fp: "write-error:" + entry, what: fmt.Sprintf("%s of a map with %d ascending keys returned %v", entry, len(in.keys), werr)}}}
 	}
+	g, f := reopen(data, len(in.keys))
+	if f != nil {
+		return verdict{fails: []failure{*f}}
+	}
+	return judgeWritten(a, g, data, root, in, entry, func() (int, error) { return baselineObjects(c.Config) })
+}
 
-	var fails []failure
+// reopen opens the written file with the real Reader (memoised above
+// memoAbove keys, see memoGetter).
+func reopen(data []byte, nkeys int) (pdf.Getter, *failure) {
 	rd, err := pdf.NewReader(bytes.NewReader(data), int64(len(data)), nil)
 	if err != nil {
-		return verdict{fails: []failure{{fp: "reopen-error", what: "NewReader on the written file: " + err.Error()}}}
+		return nil, &failure{fp: "reopen-error", what: "NewReader on the written file: " + err.Error()}
 	}
 	var g pdf.Getter = rd
-	if len(in.keys) > memoAbove {
+	if nkeys > memoAbove {
 		g = &memoGetter{Getter: rd, m: map[pdf.Reference]pdf.Native{}}
 	}
+	return g, nil
+}
 
+// judgeWritten judges one tree of a reopened file against its map.  base
+// gives the number of objects of the same file written without any tree; nil
+// = the file holds other trees, the object count is not judged.
+func judgeWritten[K cmp.Ordered](a *api[K], g pdf.Getter, data []byte, root pdf.Reference, in *input[K], entry string, base func() (int, error)) verdict {
+	var fails []failure
 	if len(in.keys) == 0 {
 		// an empty map yields no tree
 		if root != 0 {
 			fails = append(fails, failure{fp: "empty-map:root-reference", what: fmt.Sprintf("%s of the empty map returned %s", entry, root)})
 		}
-		base, err := baselineObjects(c.Config)
-		if err != nil {
-			return verdict{fails: []failure{{fp: "harness", what: err.Error(), infra: true}}}
-		}
-		if n := bytes.Count(data, objMarker); n != base {
-			fails = append(fails, failure{fp: "empty-map:object-written", what: fmt.Sprintf("%s of the empty map: the file has %d objects, %d without the call", entry, n, base)})
+		if base != nil {
+			want, err := base()
+			if err != nil {
+				return verdict{fails: []failure{{fp: "harness", what: err.Error(), infra: true}}}
+			}
+			if n := bytes.Count(data, objMarker); n != want {
+				fails = append(fails, failure{fp: "empty-map:object-written", what: fmt.Sprintf("%s of the empty map: the file has %d objects, %d without the call", entry, n, want)})
+			}
 		}
 		if root == 0 {
 			// what a reader gets for an absent entry, and the returned null reference itself
@@ -1000,21 +1039,33 @@ type runner struct{ r *ev.Run }
 
 func (rn *runner) one(c Case) {
 	var v verdict
-	switch c.Kind {
-	case "name":
+	switch {
+	case c.Kind == "name" && c.Space == "ctx":
+		v = judgeCtx(nameAPI, c)
+	case c.Kind == "num" && c.Space == "ctx":
+		v = judgeCtx(numAPI, c)
+	case c.Kind == "name" && c.Space == "reentrant":
+		v = judgeReentrant(nameAPI, c)
+	case c.Kind == "num" && c.Space == "reentrant":
+		v = judgeReentrant(numAPI, c)
+	case c.Kind == "name":
 		v = judge(nameAPI, c)
-	case "num":
+	case c.Kind == "num":
 		v = judge(numAPI, c)
 	default:
 		v = verdict{fails: []failure{{fp: "harness", what: "unknown kind " + c.Kind, infra: true}}}
 	}
-	r := rn.r
-	r.Eval(1)
+	rn.r.Eval(1)
 	if len(v.fails) == 0 {
-		r.Outcome(v.outcome)
+		rn.r.Outcome(v.outcome)
 		return
 	}
-	for _, f := range v.fails {
+	rn.report(c, v.fails)
+}
+
+func (rn *runner) report(c Case, fails []failure) {
+	r := rn.r
+	for _, f := range fails {
 		if f.infra {
 			r.Infra(f.what)
 			continue
@@ -1130,6 +1181,9 @@ func selfTest() error {
 			return fmt.Errorf("self-test: number family %s is not ascending", fam)
 		}
 	}
+	if err := reSelfTest(); err != nil {
+		return err
+	}
 	if u := nameUniverse(); len(u) != 21 || !nameAPI.ascending(u) || len(quick14) != 14 {
 		return errors.New("self-test: name universe")
 	}
@@ -1172,7 +1226,7 @@ func Run(tier string) int {
 	}
 	r := ev.New("C17", tier, "exploration", budget)
 	rn := &runner{r}
-	r.Rule("a case = (tree kind, finite map, entry point, file configuration): the map is written into a fresh file, the file is closed, reopened with pdf.NewReader and judged against the map (Lookup of every universe key with both readers, All, Size, raw node structure); an evaluation = one tree written and judged; distinct = distinct (space, kind, key set) with at least two keys")
+	r.Rule("a case = (tree kind, finite map, entry point, file configuration): the map is written into a fresh file, the file is closed, reopened with pdf.NewReader and judged against the map (Lookup of every universe key with both readers, All, Size, raw node structure); an evaluation = one tree written and judged; distinct = distinct (space, kind, key set) with at least two keys. Space ctx: the same with the tree written in a writer context (a stream open on the Writer, neighbour objects, a second tree, hooks inside the key sequence); distinct = distinct (key set, entry point, context). Space reentrant: a case = (tree, reader, position of a first enumeration, program of Lookup / start All / take one entry / abandon operations) on ONE reader object, every observation compared with the sorted-map model; an evaluation = one program executed on a fresh reader object; distinct = distinct programs with at least one operation")
 	r.Assume("pdf.Writer.Put / pdf.Reader.Get transport node dictionaries faithfully (decided by C01-C04); the structure judge is written from ISO 32000-2 7.9.6/7.9.7 and self-tested on hand-made trees",
 		"fan-out bound 64 = maxChildren of internal/pdftree/write.go",
 		"values are direct objects of 9 kinds (integer, string, reference, dict, name, array, real, nested array, array of reference); streams as values are not enumerated")
@@ -1351,6 +1405,10 @@ func Run(tier string) int {
 		rn.one(jobs[i])
 		nontrivial(r, Case{Space: "size", Kind: jobs[i].Kind, Family: jobs[i].Family, N: jobs[i].N, Parity: jobs[i].Parity}, jobs[i].N)
 	})
+	// ---- (6) writer contexts, (7) reader re-entrancy (c17ext.go) -----------
+	runContexts(r, rn)
+	runReentrant(r, rn)
+
 	// ---- (5) all subsets of the name universe, last because it is the longest
 	done := r.Counter("name_subsets_completed")
 	r.Par(1<<uint(len(bits)), func(x int) {
